@@ -1,5 +1,5 @@
 """Property id -> suites, assumptions, trusted base."""
-from . import store_suite
+from . import store_suite, mc_checks, mc_suite
 
 TRUSTED_BASE = [
     "Lean 4.33.0 kernel (thorough tier: re-checked with leanchecker); axioms per theorem as listed under coverage.axioms (allowed: propext, Classical.choice, Quot.sound)",
@@ -7,12 +7,52 @@ TRUSTED_BASE = [
     "the correspondence check itself: Rust harness /verif/harness (vh), generators, canonicalisation, diff (this is differential testing: it shows agreement on the generated inputs only)",
     "the cfg(anysystem_verif) accessor hooks in /repo (add-only)",
     "all of /repo/src is modelled rather than verified: theorems are about /verif/lean/Anysystem/Model, tied to the code only by the correspondence runs of this check",
+    "process programs are deterministic functions of (state, input) and are determined by the value state() returns; MC programs do not read the clock or ctx.rand()",
 ]
 COMMON_ASSUMPTIONS = [
     "names are single-digit p*/n*/t*/m* tokens so that string order = numeric order",
 ]
+D1 = ("D1-override-leaves-old: set_timer on a pending name leaves the old TimerFired event pending in model checking "
+      "(implementation = defective model variant, contract-conforming variant = reference semantics, on scenarios that re-set a pending timer)")
+PARTIAL_D1 = ("theorems about model-checking paths are proved for override-free paths only (finding D1); the full statement is "
+              "refuted by the kernel-checked witness C07_D1_witness")
+
+
+def mc(name, prof, **kw):
+    return lambda v, tier, seed: mc_checks.mc_property(v, tier, seed, name, prof, d1_text=D1, **kw)
+
 
 PROPS = {
+    "C02": {"ready": True, "partial": PARTIAL_D1, "replay": mc_checks.replay,
+            "suites": [mc("mc_paths", dict(collect_always=True, depth=(2, 4), caches=("full", "disabled")), refenum=True)]},
+    "C03": {"ready": True, "partial": PARTIAL_D1, "replay": mc_checks.replay,
+            "suites": [mc("mc_exhaustive", dict(depth=(2, 4)), refenum=True, cross=mc_checks.COMBOS, n_quick=250)]},
+    "C07": {"ready": True, "partial": PARTIAL_D1, "replay": mc_checks.replay,
+            "suites": [mc("mc_timers", dict(p_timer=0.6, p_send=0.2, p_cancel=0.2, same_timer_name=0.5, record=0.8, depth=(3, 5),
+                                            p_fault=0.05, caches=("disabled", "full")), refenum=True,
+                          nontrivial=lambda st: st["timers"])]},
+    "C09": {"ready": True, "replay": mc_checks.replay,
+            "suites": [mc("mc_rerun", dict(two_runs=1.0, staged=0.3))]},
+    "C10": {"ready": True, "replay": mc_checks.replay, "partial": PARTIAL_D1,
+            "suites": [mc("mc_bfs_dfs", dict(depth=(2, 4)), cross=[("dfs", "full"), ("bfs", "full"), ("dfs", "disabled"), ("bfs", "disabled")],
+                          n_quick=200)]},
+    "C11": {"ready": True, "replay": mc_checks.replay, "partial": PARTIAL_D1,
+            "suites": [mc("mc_cache_modes", dict(record=0.2, identical_msgs=0.5, depth=(2, 4)),
+                          cross=[("dfs", "full"), ("dfs", "partial"), ("dfs", "disabled"), ("bfs", "full"), ("bfs", "disabled")],
+                          n_quick=200)]},
+    "C12": {"ready": True, "replay": mc_checks.replay,
+            "suites": [mc("mc_fates", dict(p_fault=0.7, p_link=0.5, p_send=0.6, p_timer=0.1, nodes=(2, 3), procs=(2, 3), depth=(2, 4)),
+                          refenum=True, nontrivial=lambda st: st["faults"] and st["multi_states"])]},
+    "C13": {"ready": True, "partial": PARTIAL_D1, "replay": mc_checks.replay,
+            "suites": [lambda v, tier, seed: store_suite.run(v, tier, seed, only_timers=True),
+                       mc("mc_timer_order", dict(p_timer=0.7, p_send=0.15, p_once=0.4, same_timer_name=0.1, p_mode=0.4, depth=(3, 5),
+                                                 p_fault=0.05), refenum=True, nontrivial=lambda st: st["blocked"])]},
+    "C14": {"ready": True, "replay": mc_checks.replay,
+            "suites": [mc("mc_crash", dict(p_crash=1.0, nodes=(2, 3), procs=(2, 4), p_link=0.4, staged=0.5), refenum=True,
+                          nontrivial=lambda st: st["crash"] and st["multi_states"])]},
+    "C16": {"ready": True, "replay": mc_checks.replay,
+            "partial": "theorems cover what one stage returns (collected set, status counts); union over start states and rollback of run_from_states are carried by the correspondence runs only",
+            "suites": [mc("mc_staged", dict(staged=1.0, depth=(2, 4)), nontrivial=lambda st: st["staged"] and st["multi_states"])]},
     "C20": {
         "ready": True,
         "suites": [lambda v, tier, seed: store_suite.run(v, tier, seed)],
